@@ -294,7 +294,9 @@ def check(run, repo, world):
         for p_ in fps:
             holds = True
             for (t_, b_) in p_.conds:
-                r_ = folder.eval(t_, {dparam: v}, occ.mod)
+                from ..fold import ClassRef as _CR
+                r_ = folder.eval(t_, {dparam: v, "cls": _CR(occ),
+                                      "self": _CR(occ)}, occ.mod)
                 if r_ is _UNK:
                     raise AnalysisError(
                         "R-EVT-REG: cannot fold `%s` for %s=%d" % (
